@@ -49,6 +49,7 @@ STRENGTHENED = {
     "C13-d2": "the crash-point lifecycle of C13 is also run on the authorizer without any token (build_unauthenticated), queries and query_all included",
     "C15-d2": "new signature-level operator: a DER ECDSA signature re-encoded as fixed-size r || s",
     "C19-d2": "Op::From can load the *sealed* serialization of a token, followed by sealed size / sealed serialization / serialization / append on that handle; the model expects the Rust refusal (AlreadySealed, AppendOnSealed), nothing announced and nothing written. Harness: the children that attribute a death to a prefix of the history had no watchdog (a corrupted heap left one stuck for hours); they are now killed after 20 s, and a batch stops after 16 stalls",
+    "C07-e1": "two more layouts of the adversary operator TpForge (tp.layout_forged): the holder appends a third-party block nobody signed, whose external key is a small-order point of the Ed25519 curve (neutral element, point of order two) with the signature R = neutral element, S = 0 that the permissive verification equation accepts for such keys",
     "C19-b2": "new operation FromForeign: tokens minted by another party through the Rust API (text holding a NUL, third-party block, 70 kB strings, 3.3 values) loaded with biscuit_from and then printed, inspected, authorized, with the failed-check accessors read",
 }
 
